@@ -34,7 +34,7 @@ class C11(BaseCheck):
              'scales.kafka.sink:KafkaTransportSink._ProcessReply')
   REQUIRED_ANCHORS = ANCHORS
   REQUIRED_CLASSES = ('thriftmux', 'kafka', 'adv:duplicate-reply', 'adv:unknown-tag', 'adv:reserved-tag-1',
-                      'adv:tag-0', 'adv:huge-tag', 'adv:bitflip-tag', 'error-frame-replies', 'kafka:timeouts', 'tagpool:exhausted', 'tagpool:get-after-refusal', 'direct:bare-messages', 'direct:expired-while-opening', 'direct:retry-from-reply-handler', 'direct:answered-after-expiry-in-queue', 'timeout-before-send', 'timeout-after-send', 're-open',
+                      'adv:tag-0', 'adv:huge-tag', 'adv:bitflip-tag', 'adv:rdiscarded', 'error-frame-replies', 'kafka:timeouts', 'tagpool:exhausted', 'tagpool:get-after-refusal', 'direct:bare-messages', 'direct:expired-while-opening', 'direct:retry-from-reply-handler', 'direct:answered-after-expiry-in-queue', 'timeout-before-send', 'timeout-after-send', 're-open',
                       'tag-reuse', 'yielding-log-handler', 'direct:reply-handler-yields', 'direct:answered-twice-handler-yields', 'replies-in-several-segments', 'large-tags', 'callers-abandon-behind-deep-backlog', 'keepalive-ping-between-requests', 'short-sends')
   ASSUMPTIONS = ('a tag counts as answered when the client has read the last byte of any R-frame carrying it '
                  '(known from the simulated socket\'s read offsets)',)
@@ -664,7 +664,15 @@ class C11(BaseCheck):
       conn = live[-1]
       seen = [q['tag'] for q in s.requests if q['conn'] == conn.id]
       hi = max(seen or [1])
-      k = rng.choice(['duplicate-reply', 'unknown-tag', 'reserved-tag-1', 'tag-0', 'huge-tag', 'bitflip-tag'])
+      k = rng.choice(['duplicate-reply', 'unknown-tag', 'reserved-tag-1', 'tag-0', 'huge-tag', 'bitflip-tag', 'rdiscarded'])
+      if k == 'rdiscarded':
+        # acknowledgements of discards (Rdiscarded, type -66) that name a reserved tag, a tag never issued, or a
+        # tag that was answered (and possibly leased again) already
+        adv_classes.add(k)
+        classes.add('adv:' + k)
+        t = rng.choice([0, 1, hi + rng.choice([1, 2, 40])] + seen[-4:])
+        conn.write(mc.frame(-66, t), rng.random() * 0.005, None, 'adv:%d' % t)
+        return
       adv_classes.add(k)
       classes.add('adv:' + k)
       body = mc.rdispatch_body(mc.ST_ERROR, [], b'adversarial')
